@@ -1,7 +1,10 @@
-(* C09 E3 runner.  case:  E[x] <cap> | <script p0> | <script p1> | .. | <model schedule: one digit per entry = thread id>
+(* C09 E3 runner.  ops: S R s r C, T<d> = send with Timeout(d), A = advance the harness clock by 200.
+   case:  E[x] <cap> | <script p0> | <script p1> | .. | <model schedule: one digit per entry = thread id>
    output: <e3 schedule> res=..|.. blocked=.. q=.. closed=.. sw=.. rw=.. ssem=.. rsem=..   (format of harness/C09/e3_chan.cpp) *)
 let max64 = z_of_string "18446744073709551615"
 let parse_op w = match w.[0] with
+  | 'T' -> OSend (z_of_string (String.sub w 1 (String.length w - 1)))   (* send with Timeout(d) *)
+  | 'A' -> OYield                                                       (* clock participant: now += 200 *)
   | 'S' -> OSend max64 | 'R' -> ORecv max64 | 's' -> OTrySend | 'r' -> OTryRecv | 'C' -> OClose | _ -> failwith "op"
 let digit c = if c >= '0' && c <= '9' then Char.code c - 48 else 10 + Char.code c - 97
 let () =
